@@ -58,11 +58,19 @@ Proof.
 Qed.
 Print Assumptions services_stay_usable.
 
-(* a span whose ids have the wrong width is answered 4xx, whatever follows it in the request *)
-Theorem malformed_span_ids_rejected : forall r rest, negb ((si_tid r =? 16) && (si_sid r =? 8))%N = true ->
-  cls_of_parse (fst (do_parse ctx_traces world0 false (parse_spans span_st0 (EvSpan r :: rest)))) = C4xx.
-Proof. exact bad_width_first_is_4xx. Qed.
+(* a span whose ids have the wrong width is answered 4xx wherever it stands in the request: whatever precedes it
+   (well-formed spans, with any number of 1 MiB flushes) and whatever follows it *)
+Theorem malformed_span_ids_rejected : forall pre r rest,
+  Forall span_good pre -> negb ((si_tid r =? 16) && (si_sid r =? 8))%N = true ->
+  cls_of_parse (fst (do_parse ctx_traces world0 false (parse_spans span_st0 (map EvSpan pre ++ EvSpan r :: rest)))) = C4xx.
+Proof. intros pre r rest Hp Hb. apply bad_width_anywhere_is_4xx; [reflexivity|exact span_st0_ok|exact Hp|exact Hb]. Qed.
 Print Assumptions malformed_span_ids_rejected.
+
+Example malformed_span_ids_hyps_met :
+  let good := {| si_tid := 16; si_sid := 8; si_keys := 3%nat; si_bytes := 600000; si_abytes := 500000 |} in
+  let bad := {| si_tid := 3; si_sid := 8; si_keys := 1%nat; si_bytes := 100; si_abytes := 50 |} in
+  Forall span_good [good; good] /\ negb ((si_tid bad =? 16) && (si_sid bad =? 8))%N = true.
+Proof. split; [repeat constructor|reflexivity]. Qed.
 
 (* ---- loops ------------------------------------------------------------------------------- *)
 
